@@ -208,8 +208,11 @@ def run(tier, seed, replay=None):
         if cls in known:
             res.known_finding("class=%s witness=%s (%d cases)" % (cls, worst["case"][:160], count))
         else:
+            head = "an observation of the real iterators differs from the forest specification"
+            if coqthm:
+                head += " (class `%s`; the shipped code has this defect in that class: %s)" % (cls, desc)
             res.violation("%s; smallest case %s, label %s: impl `%s` vs spec `%s` (%d cases in this class)" % (
-                desc, worst["case"], label, val[:120], worst["expected"][:160], count), rep)
+                head, worst["case"], label, val[:120], worst["expected"][:160], count), rep)
     for (kind, cls), ms in sorted(by.items()):
         if kind == "spec":
             continue
@@ -234,6 +237,13 @@ def run(tier, seed, replay=None):
         else:
             res.violation("harness failure: " + worst["impl"], {"theorem_or_correspondence": "C04 correspondence (run)", "log": worst["expected"]},
                           no_failing_input=True)
+    if tier != "quick" and thm["ok"]:
+        crc, cout = coqchk("C04")
+        res.coverage["coqchk"] = "ok" if crc == 0 else "FAILED"
+        if crc != 0:
+            thm["ok"] = False
+            thm["problems"].append("coqchk rejected PV.props.C04")
+            thm["log"] = cout
     if not thm["ok"]:
         res.violation("proof obligation no longer checks: " + "; ".join(thm["problems"]),
                       {"theorem_or_correspondence": "coq/props/C04.v", "log": thm["log"][-3000:]},
